@@ -16,6 +16,7 @@
 -/
 import NdnVerif.C04.Model
 import NdnVerif.C04.LinkLemmas
+import NdnVerif.C04.SoakLemmas
 import NdnVerif.C04.ParseLemmas
 import NdnVerif.C04.SegmentedLemmas
 import NdnVerif.C03.Props
@@ -668,3 +669,19 @@ example : (parseR exName false (newWireReader [[7], [0]])).alloc = 32 ∧ 16 * [
 example : NonEmptySegs [[7], [0]] := by intro s hs; simp at hs; rcases hs with h | h <;> simp [h]
 
 end Ndn.C04.Seg
+
+namespace Ndn.C04
+
+/-- **C04, a repeated fragment changes nothing** (`soak` of the correspondence: a lossy peer that repeats
+    first fragments for any length of time).  Whenever a fragment leaves its message incomplete, handing the
+    link service the very same fragment again — same base sequence, index, count and bytes — leaves the whole
+    link state (partial message store and counters) exactly as it is: the store never grows with the number
+    of repetitions. -/
+theorem repeated_fragment_changes_nothing (st st' : LinkSt) (base idx cnt : Nat) (frag : Bytes)
+    (h : reassemble st base idx cnt frag = some (st', none)) :
+    reassemble st' base idx cnt frag = some (st', none) :=
+  reassemble_repeat_idempotent st st' base idx cnt frag h
+
+example : reassemble ({ store := [] } : LinkSt) 77 0 2 [6, 18] = some ({ store := [(77, [[6, 18], []])] }, none) := by rfl
+
+end Ndn.C04
